@@ -88,6 +88,15 @@ static void vg_merge(void *clos, const uint8_t *key, size_t lk, const uint8_t *v
 	*out = malloc(2); (*out)[0] = vg_fold[0]; (*out)[1] = vg_fold[1]; *lo = vg_fold_len;
 }
 
+/* ---------- dupsort: an arbitrary total preorder on values (symbolic rank per entry) ---------- */
+static uint8_t DR[NS * NEs]; static unsigned vg_dupsort_calls;
+static int vg_dupsort(void *clos, const uint8_t *key, size_t lk, const uint8_t *v0, size_t l0, const uint8_t *v1, size_t l1)
+{
+	int e0 = vg_entry_of(v0, l0), e1 = vg_entry_of(v1, l1); vg_dupsort_calls++;
+	VG_P("C04", e0 >= 0 && e1 >= 0 && SLK[e0] == lk && SLK[e1] == lk && (lk == 0 || (SKEY[e0] == key[0] && SKEY[e1] == key[0])), "dupsort is asked about two source entries that carry the same key, with that key");
+	if (e0 < 0 || e1 < 0) return 0;
+	return DR[e0] < DR[e1] ? -1 : DR[e0] > DR[e1];
+}
 static void vg_make_sources(void)
 {
 	vg_ns = NS;     /* empty sources (SN[s] == 0) stand for absent ones */
@@ -96,7 +105,7 @@ static void vg_make_sources(void)
 		for (unsigned i = 0; i < NEs; i++) {
 			unsigned e = s * NEs + i;
 			SKEY[e] = nondet_u8(); SLK[e] = nondet_size(); __CPROVER_assume(SLK[e] <= 1);
-			SVAL[e] = (uint16_t)(1u << (2 * e));
+			SVAL[e] = (uint16_t)(1u << (2 * e)); DR[e] = nondet_u8();
 			if (i > 0 && i < SN[s]) __CPROVER_assume(vg_cmp(&SKEY[e - 1], SLK[e - 1], &SKEY[e], SLK[e]) < 0);   /* each source strictly increasing */
 		}
 	}
@@ -107,10 +116,11 @@ static struct mtbl_merger *vg_m;
 static unsigned H[NS];           /* head index of source s (== SN[s]: exhausted, not in the heap) */
 static struct entry *ENTP[NS];
 #define ENT(s) (*ENTP[s])
+static _Bool vg_with_dupsort;
 static struct merger_iter *vg_any_state(_Bool with_merge)
 {
 	vg_m = malloc(sizeof(*vg_m));
-	vg_m->opt.merge = with_merge ? vg_merge : NULL; vg_m->opt.merge_clos = NULL; vg_m->opt.dupsort = NULL; vg_m->opt.dupsort_clos = NULL;
+	vg_m->opt.merge = with_merge ? vg_merge : NULL; vg_m->opt.merge_clos = NULL; vg_m->opt.dupsort = vg_with_dupsort ? vg_dupsort : NULL; vg_m->opt.dupsort_clos = NULL;
 	vg_m->sources = NULL; vg_m->source = NULL;
 	struct merger_iter *it = malloc(sizeof(*it));
 	it->m = vg_m;
@@ -199,6 +209,7 @@ void h_merger_next_step(void)
 {
 	vg_make_sources();
 	_Bool in_merge = nondet_bool();
+	vg_with_dupsort = !in_merge && nondet_bool();
 	struct merger_iter *it = vg_any_state(in_merge);
 	vg_merge_fail_now = 0;
 	unsigned P[NS]; for (unsigned s = 0; s < NS; s++) P[s] = H[s];
@@ -231,6 +242,8 @@ void h_merger_next_step(void)
 			unsigned who = NS;
 			for (unsigned s = 0; s < NS; s++) if (s < vg_ns && P[s] < SN[s] && SVAL[s * NEs + P[s]] == got && vg_cmp(&SKEY[s * NEs + P[s]], SLK[s * NEs + P[s]], &mk, ml) == 0) who = s;
 			VG_P("C04", who < NS && vg_merge_calls == 0, "without a merge function every source entry is emitted unchanged, smallest key first");
+			if (vg_with_dupsort && who < NS) for (unsigned s = 0; s < NS; s++) if (s < vg_ns && s != who && P[s] < SN[s] && vg_cmp(&SKEY[s * NEs + P[s]], SLK[s * NEs + P[s]], &mk, ml) == 0)
+				VG_P("C04", DR[who * NEs + P[who]] <= DR[s * NEs + P[s]], "entries with equal keys are emitted in the order of the dupsort function");
 			if (who < NS) { P[who]++; vg_check_M(it, P); }
 		}
 		VG_P("C04,C05", ubuf_size(it->cur_key) == lk && k == ubuf_data(it->cur_key), "the returned key is the iterator's own copy (sources may invalidate their buffers)");
